@@ -16,11 +16,14 @@
    3. symmetry in (a, b)                                       (`dsep_symm`)
    4. insertion-order independence                            (`dsep_equiv_congr`)
    5. the judgement record is canonical                        (`judgement_canonical`, `areDSeparated_record`)
-   6. the augmented-graph criterion is m-separation            (`augmented_iff_mconn…`), canonical DAG
+   6. the augmented-graph criterion is m-separation            (`augmented_iff_mconn`), canonical DAG (`dsep_iff_dsep_canonical`)
+   7. reported separations are conditional independencies      (`dsep_sound`)
 -/
 import Y0.Lemmas.SepVerdict
 import Y0.Lemmas.SepSort
 import Y0.Lemmas.SepDag
+import Y0.Lemmas.SepMarkov
+import Y0.Lemmas.IdGraph
 
 namespace Y0.MG
 variable {α : Type} [DecidableEq α]
@@ -154,6 +157,32 @@ theorem dsep_equiv_congr (G H : MG α) (hG : G.WF) (hH : H.WF) (h : G.equiv H = 
       cases s <;> cases s' <;> simp_all
   · rw [dSeparated_invalid G a b C hq, dSeparated_invalid H a b C (fun h => hq (hv.2 h))]
 
+/-- the conditioning set matters only as a set: order and repetition inside `C` are irrelevant -/
+theorem dsep_cond_congr (G : MG α) (hG : G.WF) (a b : α) (C C' : List α) (h : ∀ x, x ∈ C ↔ x ∈ C') :
+    G.dSeparated a b C = G.dSeparated a b C' := by
+  have hv : G.ValidQuery a b C ↔ G.ValidQuery a b C' := by
+    simp only [ValidQuery]
+    constructor <;> rintro ⟨h1, h2, h3⟩ <;> exact ⟨h1, h2, fun c hc => h3 c (by simpa [h] using hc)⟩
+  have hanc : G.Anc (a :: b :: C) = G.Anc (a :: b :: C') := by
+    funext w; simp only [Anc, List.mem_cons, h]
+  have hstep : G.AugStep a b C = G.AugStep a b C' := by
+    funext u v; simp only [AugStep, hanc, h]
+  by_cases hq : G.ValidQuery a b C
+  · have hq' := hv.1 hq
+    by_cases hc : a ∈ C ∨ b ∈ C
+    · rw [dSeparated_endpoint_conditioned G hG a b C hq hc,
+        dSeparated_endpoint_conditioned G hG a b C' hq' (by simpa [h] using hc)]
+    · have ha : a ∉ C := fun h => hc (Or.inl h)
+      have hb : b ∉ C := fun h => hc (Or.inr h)
+      obtain ⟨s, hs, h1⟩ := dSeparated_verdict G hG a b C hq ha hb
+      obtain ⟨s', hs', h2⟩ := dSeparated_verdict G hG a b C' hq' (by simpa [h] using ha) (by simpa [h] using hb)
+      rw [hs, hs']
+      congr 1
+      have : s = true ↔ s' = true := by
+        rw [h1, h2]; simp only [AugSeparated, AugConnected, hstep]
+      cases s <;> cases s' <;> simp_all
+  · rw [dSeparated_invalid G a b C hq, dSeparated_invalid G a b C' (fun h' => hq (hv.2 h'))]
+
 /-! ## 6. the augmented-graph criterion is m-separation, which is d-separation in the canonical DAG
 
 The classical theorem (Lauritzen, Dawid, Larsen & Leimer 1990 for DAGs; Richardson 2003 for ADMGs), proved here
@@ -216,19 +245,48 @@ theorem dsep_iff_dsep_canonical (G : MG α) (hG : G.WF) (a b : α) (C : List α)
     s = true ↔ ¬ G.DConnCanonical a b C := by
   rw [dsep_iff_mseparated G hG a b C hq hab ha hb s hs, mconn_iff_dconn_canonical G a b C hab]
 
--- OPEN: the last clause of C04, "consequently every reported separation is a conditional independence of every
--- compatible model" (the global Markov property of ADMGs).  Full statement, with `Scm G` the semi-Markovian models
--- of DESIGN.md 3.3 (independent latent roots realising the bidirected edges, positive kernels) and `CI M a b C`
--- meaning  P(a, b, C) · P(C) = P(a, C) · P(b, C)  for all values:
---
---   theorem dsep_sound (G : MG Nat) (hG : G.WF) (hA : G.Acyclic) (a b : Nat) (C : List Nat)
---       (hq : G.ValidQuery a b C) (hab : a ≠ b) (ha : a ∉ C) (hb : b ∉ C)
---       (hs : G.dSeparated a b C = .ok true) : ∀ M : Scm G, CI M a b C
---
--- Not mechanised (no `Scm` development in this family's files).  What IS proved above reduces it to the textbook
--- statement "d-separation in a DAG implies conditional independence in every Bayesian network over that DAG"
--- applied to the canonical DAG (`dsep_iff_dsep_canonical`).  The harness decides the clause per case on small
--- graphs by exact-rational evaluation of a random compatible SCM (harness/oracles/sep_paths.py `ci_holds`).
+/-! ## 7. "consequently every reported separation is a conditional independence of every compatible model"
+
+The model class is `Scm.Compatible` of Y0/Spec/Scm.lean: discrete variables of any cardinality, positive rational
+parameters, independent root latents of any arity, two observed variables sharing a latent only across a bidirected
+edge of `G`.  `M.CondIndep G a b C` (Y0/Spec/SepCI.lean): `P(a, b, C) · P(C) = P(a, C) · P(b, C)` at every assignment.
+The proof of the global Markov property is in Y0/Lemmas/SepMarkov.lean (`markov`). -/
+
+/-- a graph whose directed edges all increase some rank is acyclic (used to exhibit graphs satisfying `Acyclic`) -/
+theorem acyclic_of_rank (G : MG α) (r : α → Nat) (h : ∀ u v, G.DiEdge u v → r u < r v) : G.Acyclic := by
+  have key : ∀ u v, TransGen G.DiEdge u v → r u < r v := by
+    intro u v huv
+    induction huv with
+    | single h' => exact h _ _ h'
+    | tail _ h' ih => exact Nat.lt_trans ih (h _ _ h')
+  intro v hv
+  exact Nat.lt_irrefl _ (key v v hv)
+
+/-- a finite acyclic graph has a rank function that increases along directed edges (the form of acyclicity the
+semantic lemmas use): the number of ancestors -/
+theorem ranked_of_acyclic (G : MG Name) (hG : G.WF) (hA : G.Acyclic) : G.Ranked := by
+  classical
+  refine ⟨fun v => (G.nodes.filter (fun w => decide (ReflTransGen G.DiEdge w v))).length, ?_⟩
+  rintro ⟨u, v⟩ he
+  have huv : G.DiEdge u v := he
+  simp only
+  apply length_lt_of_subset (hG.nodup.filter _) (b := v)
+  · intro w hw
+    simp only [List.mem_filter, decide_eq_true_eq] at hw ⊢
+    exact ⟨hw.1, hw.2.tail huv⟩
+  · simp only [List.mem_filter, decide_eq_true_eq]
+    exact ⟨(hG.di_mem _ he).2, .refl⟩
+  · simp only [List.mem_filter, decide_eq_true_eq, not_and]
+    intro _ hvu
+    exact hA v (TransGen.tail' hvu huv)
+
+/-- **C04, last clause.**  On every ADMG `from_edges` can build, every separation reported by the test is a
+conditional independence of the observational distribution of EVERY compatible semi-Markovian model. -/
+theorem dsep_sound (G : MG Name) (hG : G.WF) (hA : G.Acyclic) (a b : Name) (C : List Name)
+    (hq : G.ValidQuery a b C) (ha : a ∉ C) (hb : b ∉ C) (hs : G.dSeparated a b C = .ok true)
+    (M : Scm) (hM : M.Compatible G) : M.CondIndep G a b C :=
+  markov G hG (ranked_of_acyclic G hG hA) M hM a b C hq.1 hq.2.1 ha hb
+    ((dsep_iff_augmented G hG a b C hq ha hb true hs).1 rfl)
 
 end Y0.MG
 
@@ -282,6 +340,38 @@ example : f2Graph.dSeparated 1 2 [] = .ok true := by decide
 example : f2Graph.dSeparated 1 7 [] = .error (.invalidInput "KeyError") := by decide
 example : f2Graph.dSeparated 1 2 [2] = .error (.internal "NodeNotFound") := by decide
 example : f2Graph.areDSeparated 2 1 [0, 0] = .ok ⟨false, 1, 2, [0]⟩ := by decide
+
+/-- the last clause is not vacuous: the chain `0 → 1 → 2` is a well-formed acyclic graph, the test reports
+`0 ⟂ 2 | 1`, the model with three fair coins is compatible, hence `0 ⟂ 2 | 1` holds in it -/
+def chainGraph : MG Nat := MG.fromEdges [] [(0, 1), (1, 2)] []
+
+def fairModel : Scm :=
+  { card := fun _ => 2, lat := [], prior := fun _ _ => 1, latOf := fun _ => [], kern := fun _ _ => 1 / 2 }
+
+theorem fairModel_compatible : fairModel.Compatible chainGraph := by
+  refine ⟨fun _ => by simp [fairModel], by simp [fairModel], by simp [fairModel], by simp [fairModel],
+    by simp [fairModel], by simp [fairModel], ?_, ?_, ?_, ?_⟩
+  · intro v _ σ τ _; rfl
+  · intro v _ σ; simp [fairModel]
+  · intro v _ σ
+    rw [sumVar_const _ _ _ _ (fun _ _ => rfl)]
+    simp [fairModel]
+  · intro v _ w _ _ h
+    obtain ⟨u, hu, _⟩ := h
+    simp [fairModel] at hu
+
+theorem chainGraph_acyclic : chainGraph.Acyclic := by
+  apply MG.acyclic_of_rank _ (fun v => v)
+  intro u v h
+  have h' : (u, v) ∈ [(0, 1), (1, 2)] := by
+    have : chainGraph.di = [(0, 1), (1, 2)] := by decide
+    rw [MG.DiEdge, this] at h; exact h
+  simp only [List.mem_cons, Prod.mk.injEq, List.not_mem_nil, or_false] at h'
+  rcases h' with ⟨rfl, rfl⟩ | ⟨rfl, rfl⟩ <;> simp
+
+example : fairModel.CondIndep chainGraph 0 2 [1] :=
+  MG.dsep_sound chainGraph (MG.wf_fromEdges _ _ _) chainGraph_acyclic 0 2 [1]
+    ⟨by decide, by decide, by decide⟩ (by decide) (by decide) (by decide) fairModel fairModel_compatible
 
 /-- the specification side is inhabited too: `1 ↔ 0 ↔ 2` is an m-connecting path given `{0}` (the collider `0`
 is in `C`), so `dsep_iff_mseparated` forces the verdict `false` above -/
